@@ -1,166 +1,212 @@
 /-
   C18 — CWT claims sets and KDF contexts decode and encode per their definitions.
+  Claims set: accepted ⇔ well-formed (both directions, any wire order), every field = wire value, others kept in order, duplicate ⇒
+  DuplicateMapKey.  KDF context, PartyInfo, SuppPubInfo: accepted ⇔ the stated array shape; the emitted value of a decode result is the
+  decoded value.  Encoding a well-formed value emits exactly its populated fields and decoding returns it (with C11).
+  (`ClaimsSpec.lean` holds the declarative reading `ClaimsOf` and the ⇒ proofs; this file adds the converses and the encode side.)
 -/
-import CosetProofs.ClaimsFields
-import CosetProofs.Props.C15
+import CosetProofs.ClaimsSpec
+import CosetProofs.Roundtrip.BuiltOther
 namespace Coset.Props.C18
 open Coset
 
-/-- what an accepted claims set holds, claim by claim. -/
-structure ClaimsOf (ps : List (RegLabelPriv × Value)) (c : ClaimsSet) : Prop where
-  issuer : match lookupN cISS ps with | some v => ∃ t, v = .text t ∧ c.issuer = some t | none => c.issuer = none
-  subject : match lookupN cSUB ps with | some v => ∃ t, v = .text t ∧ c.subject = some t | none => c.subject = none
-  audience : match lookupN cAUD ps with | some v => ∃ t, v = .text t ∧ c.audience = some t | none => c.audience = none
-  expirationTime : match lookupN cEXP ps with
-    | some v => ∃ t, Timestamp.fromValue v = .ok t ∧ c.expirationTime = some t | none => c.expirationTime = none
-  notBefore : match lookupN cNBF ps with
-    | some v => ∃ t, Timestamp.fromValue v = .ok t ∧ c.notBefore = some t | none => c.notBefore = none
-  issuedAt : match lookupN cIAT ps with
-    | some v => ∃ t, Timestamp.fromValue v = .ok t ∧ c.issuedAt = some t | none => c.issuedAt = none
-  cwtId : match lookupN cCTI ps with | some v => ∃ b, v = .bytes b ∧ c.cwtId = some b | none => c.cwtId = none
-  rest : c.rest = ps.filter (fun p => p.1 ∉ typedClaims)
+/-! ### claims set: converse -/
 
-theorem claims_distinct : typedClaims.Pairwise (· ≠ ·) := by decide
+/-- the type rule for one claim (RFC 8392 §3.1). -/
+structure ClaimOk (n : RegLabelPriv) (v : Value) : Prop where
+  text : (n = cISS ∨ n = cSUB ∨ n = cAUD) → ∃ t, v = .text t
+  time : (n = cEXP ∨ n = cNBF ∨ n = cIAT) → ∃ t, Timestamp.fromValue v = .ok t
+  cti : n = cCTI → ∃ b, v = .bytes b
 
-section
-macro "cl_tac" hs:ident : tactic => `(tactic|
-  (have hc := claimStep_cases _ _ _ _ $hs
-   have hp := claims_distinct
-   simp only [typedClaims, List.pairwise_cons, List.mem_cons, List.not_mem_nil, or_false, forall_eq_or_imp, forall_eq] at hp
-   cases hc <;> simp_all [typedClaims]))
+theorem claimStep_ok (n : RegLabelPriv) (v : Value) (c : ClaimsSet) (he : ClaimOk n v) : ∃ c1, claimStep c (n, v) = .ok c1 := by
+  by_cases h1 : n = cISS
+  · obtain ⟨t, rfl⟩ := he.text (Or.inl h1); subst h1; simp [claimStep, claimDispatch, tryAsString]
+  by_cases h2 : n = cSUB
+  · obtain ⟨t, rfl⟩ := he.text (Or.inr (Or.inl h2)); subst h2; simp [claimStep, claimDispatch, h1, tryAsString]
+  by_cases h3 : n = cAUD
+  · obtain ⟨t, rfl⟩ := he.text (Or.inr (Or.inr h3)); subst h3; simp [claimStep, claimDispatch, h1, h2, tryAsString]
+  by_cases h4 : n = cEXP
+  · obtain ⟨t, ht⟩ := he.time (Or.inl h4); subst h4; simp [claimStep, claimDispatch, h1, h2, h3, ht]
+  by_cases h5 : n = cNBF
+  · obtain ⟨t, ht⟩ := he.time (Or.inr (Or.inl h5)); subst h5; simp [claimStep, claimDispatch, h1, h2, h3, h4, ht]
+  by_cases h6 : n = cIAT
+  · obtain ⟨t, ht⟩ := he.time (Or.inr (Or.inr h6)); subst h6; simp [claimStep, claimDispatch, h1, h2, h3, h4, h5, ht]
+  by_cases h7 : n = cCTI
+  · obtain ⟨b, rfl⟩ := he.cti h7; subst h7; simp [claimStep, claimDispatch, h1, h2, h3, h4, h5, h6, tryAsBytes]
+  simp [claimStep, claimDispatch, h1, h2, h3, h4, h5, h6, h7]
 
-theorem fr_iss (l v s s1) (hl : l ≠ cISS) (hs : claimStep s (l, v) = .ok s1) : s1.issuer = s.issuer := by cl_tac hs
-theorem st_iss (v s s1) (hs : claimStep s (cISS, v) = .ok s1) : ∃ t, v = .text t ∧ s1.issuer = some t := by cl_tac hs
-theorem fr_sub (l v s s1) (hl : l ≠ cSUB) (hs : claimStep s (l, v) = .ok s1) : s1.subject = s.subject := by cl_tac hs
-theorem st_sub (v s s1) (hs : claimStep s (cSUB, v) = .ok s1) : ∃ t, v = .text t ∧ s1.subject = some t := by cl_tac hs
-theorem fr_aud (l v s s1) (hl : l ≠ cAUD) (hs : claimStep s (l, v) = .ok s1) : s1.audience = s.audience := by cl_tac hs
-theorem st_aud (v s s1) (hs : claimStep s (cAUD, v) = .ok s1) : ∃ t, v = .text t ∧ s1.audience = some t := by cl_tac hs
-theorem fr_exp (l v s s1) (hl : l ≠ cEXP) (hs : claimStep s (l, v) = .ok s1) : s1.expirationTime = s.expirationTime := by cl_tac hs
-theorem st_exp (v s s1) (hs : claimStep s (cEXP, v) = .ok s1) : ∃ t, Timestamp.fromValue v = .ok t ∧ s1.expirationTime = some t := by cl_tac hs
-theorem fr_nbf (l v s s1) (hl : l ≠ cNBF) (hs : claimStep s (l, v) = .ok s1) : s1.notBefore = s.notBefore := by cl_tac hs
-theorem st_nbf (v s s1) (hs : claimStep s (cNBF, v) = .ok s1) : ∃ t, Timestamp.fromValue v = .ok t ∧ s1.notBefore = some t := by cl_tac hs
-theorem fr_iat (l v s s1) (hl : l ≠ cIAT) (hs : claimStep s (l, v) = .ok s1) : s1.issuedAt = s.issuedAt := by cl_tac hs
-theorem st_iat (v s s1) (hs : claimStep s (cIAT, v) = .ok s1) : ∃ t, Timestamp.fromValue v = .ok t ∧ s1.issuedAt = some t := by cl_tac hs
-theorem fr_cti (l v s s1) (hl : l ≠ cCTI) (hs : claimStep s (l, v) = .ok s1) : s1.cwtId = s.cwtId := by cl_tac hs
-theorem st_cti (v s s1) (hs : claimStep s (cCTI, v) = .ok s1) : ∃ b, v = .bytes b ∧ s1.cwtId = some b := by cl_tac hs
-theorem st_rest (l v s s1) (hs : claimStep s (l, v) = .ok s1) : s1.rest = s.rest ++ (if l ∉ typedClaims then [(l, v)] else []) := by cl_tac hs
-end
-
-theorem fold_rest_claims : ∀ (ps : List (RegLabelPriv × Value)) (c0 c : ClaimsSet), foldRes claimStep ps c0 = .ok c →
-    c.rest = c0.rest ++ ps.filter (fun p => p.1 ∉ typedClaims) := by
+theorem claims_fold_ok : ∀ (ps : List (RegLabelPriv × Value)) (c0 : ClaimsSet), (∀ p ∈ ps, ClaimOk p.1 p.2) → ∃ c, foldRes claimStep ps c0 = .ok c := by
   intro ps
   induction ps with
-  | nil => intro c0 c hf; simp [foldRes] at hf; subst hf; simp
+  | nil => intro c0 _; exact ⟨c0, rfl⟩
   | cons p ps ih =>
-    intro c0 c hf
-    obtain ⟨l, v⟩ := p
-    simp only [foldRes] at hf
-    cases hs : claimStep c0 (l, v) with
-    | err e => simp [hs] at hf
-    | panic q => simp [hs] at hf
-    | ok c1 =>
-      simp only [hs] at hf
-      rw [ih c1 c hf, st_rest l v c0 c1 hs]
-      by_cases hl : l ∈ typedClaims <;> simp [hl]
+    intro c0 hall
+    obtain ⟨c1, h1⟩ := claimStep_ok p.1 p.2 c0 (hall p (by simp))
+    obtain ⟨c, h2⟩ := ih c1 (fun q hq => hall q (by simp [hq]))
+    exact ⟨c, by simp only [foldRes]; rw [show claimStep c0 p = claimStep c0 (p.1, p.2) from rfl, h1]; exact h2⟩
 
-theorem fold_claimsOf (ps : List (RegLabelPriv × Value)) (c : ClaimsSet) (hnd : (ps.map (·.1)).Nodup)
-    (hf : foldRes claimStep ps ClaimsSet.default = .ok c) : ClaimsOf ps c := by
-  have A := fold_field_n claimStep ClaimsSet.issuer cISS (fun v x => ∃ t, v = .text t ∧ x = some t) fr_iss st_iss ps _ c hnd hf
-  have B := fold_field_n claimStep ClaimsSet.subject cSUB (fun v x => ∃ t, v = .text t ∧ x = some t) fr_sub st_sub ps _ c hnd hf
-  have C := fold_field_n claimStep ClaimsSet.audience cAUD (fun v x => ∃ t, v = .text t ∧ x = some t) fr_aud st_aud ps _ c hnd hf
-  have D := fold_field_n claimStep ClaimsSet.expirationTime cEXP (fun v x => ∃ t, Timestamp.fromValue v = .ok t ∧ x = some t) fr_exp st_exp ps _ c hnd hf
-  have E := fold_field_n claimStep ClaimsSet.notBefore cNBF (fun v x => ∃ t, Timestamp.fromValue v = .ok t ∧ x = some t) fr_nbf st_nbf ps _ c hnd hf
-  have F := fold_field_n claimStep ClaimsSet.issuedAt cIAT (fun v x => ∃ t, Timestamp.fromValue v = .ok t ∧ x = some t) fr_iat st_iat ps _ c hnd hf
-  have G := fold_field_n claimStep ClaimsSet.cwtId cCTI (fun v x => ∃ b, v = .bytes b ∧ x = some b) fr_cti st_cti ps _ c hnd hf
-  simp only [ClaimsSet.default] at A B C D E F G
-  refine ⟨?_, ?_, ?_, ?_, ?_, ?_, ?_, by simpa [ClaimsSet.default] using fold_rest_claims ps _ c hf⟩
-  · cases hl : lookupN cISS ps <;> simp only [hl] at A ⊢ <;> exact A
-  · cases hl : lookupN cSUB ps <;> simp only [hl] at B ⊢ <;> exact B
-  · cases hl : lookupN cAUD ps <;> simp only [hl] at C ⊢ <;> exact C
-  · cases hl : lookupN cEXP ps <;> simp only [hl] at D ⊢ <;> exact D
-  · cases hl : lookupN cNBF ps <;> simp only [hl] at E ⊢ <;> exact E
-  · cases hl : lookupN cIAT ps <;> simp only [hl] at F ⊢ <;> exact F
-  · cases hl : lookupN cCTI ps <;> simp only [hl] at G ⊢ <;> exact G
-
-theorem mapResLen {α β : Type} (f : α → Res β) : ∀ (xs : List α) (ys : List β), mapRes f xs = .ok ys → ys.length = xs.length := by
-  intro xs; induction xs with
-  | nil => intro ys h; simp [mapRes] at h; subst h; rfl
-  | cons x xs ih => intro ys h; rw [mapRes_cons_ok] at h; obtain ⟨y, ys', _, h2, rfl⟩ := h; simp [ih ys' h2]
-
-/-- C18 (claims, ⇒): an accepted claims set is a map whose keys are registered / private-use integers or text, pairwise distinct,
-    with issuer/subject/audience text, the three times integers in range or floats, CWT id a byte string; every field equals its
-    wire value and other claims are kept in order. -/
-theorem claims_accepted_is_wellformed (v : Value) (c : ClaimsSet) (hok : ClaimsSet.fromValue v = .ok c) :
-    ∃ m ns, v = .map m ∧ mapRes (RegLabelPriv.fromValue Reg.cwtClaimName) (m.map (·.1)) = .ok ns ∧ ns.Nodup ∧
-      ClaimsOf (ns.zip (m.map (·.2))) c := by
-  cases v with
-  | map m =>
-    simp only [ClaimsSet.fromValue] at hok
-    rw [claimsLoop_eq_gen] at hok
-    obtain ⟨ns, hns, hfr, hfold⟩ := (genLoop_ok_iff _ _ claimStep (GoodName Reg.cwtClaimName) claims_loop_hyps.1 claims_loop_hyps.2
-      m ClaimsSet.default c [] (by simp)).mp hok
-    have hlen : ns.length = m.length := by simpa using mapResLen _ _ _ hns
-    have hnd : ((ns.zip (m.map (·.2))).map (·.1)).Nodup := by
-      rw [List.map_fst_zip (by simp [hlen])]; exact hfr.1
-    exact ⟨m, ns, rfl, hns, hfr.1, fold_claimsOf _ c hnd hfold⟩
-  | _ => simp [ClaimsSet.fromValue, typeError] at hok
-
-/-- a repeated claim name after an acceptable prefix: `DuplicateMapKey` (decode side of C12 for claims sets). -/
-theorem claims_dup_error_kind (p q : List (Value × Value)) (k x : Value) (n : RegLabelPriv) (np : List RegLabelPriv) (cp : ClaimsSet)
-    (hnp : mapRes (RegLabelPriv.fromValue Reg.cwtClaimName) (p.map (·.1)) = .ok np) (hnd : np.Nodup)
-    (hfold : foldRes claimStep (np.zip (p.map (·.2))) ClaimsSet.default = .ok cp)
-    (hk : RegLabelPriv.fromValue Reg.cwtClaimName k = .ok n) (hmem : n ∈ np) :
-    ClaimsSet.fromValue (.map (p ++ (k, x) :: q)) = .err .duplicateMapKey := by
+/-- C18 (claims, ⇐): a map whose keys are registered / private-use integers or text, pairwise distinct, with each typed claim of its type,
+    is accepted — in any wire order. -/
+theorem claims_wellformed_is_accepted (m : List (Value × Value)) (ns : List RegLabelPriv)
+    (hk : mapRes (RegLabelPriv.fromValue Reg.cwtClaimName) (m.map (·.1)) = .ok ns) (hnd : ns.Nodup)
+    (hall : ∀ p ∈ ns.zip (m.map (·.2)), ClaimOk p.1 p.2) : ∃ c, ClaimsSet.fromValue (.map m) = .ok c := by
+  obtain ⟨c, hf⟩ := claims_fold_ok (ns.zip (m.map (·.2))) ClaimsSet.default hall
+  refine ⟨c, ?_⟩
   simp only [ClaimsSet.fromValue, claimsLoop_eq_gen]
-  exact genLoop_dup _ _ claimStep (GoodName Reg.cwtClaimName) claims_loop_hyps.1 claims_loop_hyps.2
-    p ClaimsSet.default cp [] np k x n q (by simp) hnp ⟨hnd, by simp⟩ hfold hk (by simpa using hmem)
+  exact (genLoop_ok_iff _ _ claimStep (GoodName Reg.cwtClaimName) claims_loop_hyps.1 claims_loop_hyps.2 m ClaimsSet.default c [] (by simp)).mpr
+    ⟨ns, hk, ⟨hnd, by simp⟩, hf⟩
 
-/-- timestamps: an integer gives whole seconds exactly (or out of range), a float the same bits; everything else is rejected. -/
-theorem timestamp (v : Value) (t : Timestamp) : Timestamp.fromValue v = .ok t ↔
-    ((∃ n, v = .int n ∧ i64Min ≤ n ∧ n ≤ i64Max ∧ t = .wholeSeconds n) ∨ (∃ b, v = .float b ∧ t = .fractionalSeconds b)) := by
-  cases v <;> simp [Timestamp.fromValue, typeError]
-  · rename_i n
-    by_cases h : i64Min ≤ n ∧ n ≤ i64Max
-    · simp [narrowI64, h]; exact eq_comm
-    · simp [narrowI64, h]; intro h1 h2; exact absurd ⟨h1, h2⟩ h
-  · exact eq_comm
+theorem lookupN_of_mem (l : RegLabelPriv) (v : Value) : ∀ (ps : List (RegLabelPriv × Value)), (ps.map (·.1)).Nodup → (l, v) ∈ ps → lookupN l ps = some v := by
+  intro ps
+  induction ps with
+  | nil => intro _ h; cases h
+  | cons p ps ih =>
+    intro hnd hm
+    obtain ⟨l', v'⟩ := p
+    simp only [List.map_cons, List.nodup_cons] at hnd
+    rw [lookupN_cons]
+    rcases List.mem_cons.mp hm with h | h
+    · cases h; simp
+    · have : l' ≠ l := by
+        intro e; subst e
+        exact hnd.1 (List.mem_map.mpr ⟨(l', v), h, rfl⟩)
+      simp [this, ih hnd.2 h]
 
-/-- PartyInfo = [identity bstr/nil, nonce bstr/int/nil, other bstr/nil] (arity exactly 3). -/
-theorem party_info (v : Value) (p : PartyInfo) : PartyInfo.fromValue v = .ok p →
-    ∃ x0 x1 x2, v = .array [x0, x1, x2] ∧ nullOrBytes x0 = .ok p.identity ∧ nullOrBytes x2 = .ok p.other ∧
-      ((x1 = .null ∧ p.nonce = none) ∨ (∃ b, x1 = .bytes b ∧ p.nonce = some (.bytes b)) ∨
-       (∃ n, x1 = .int n ∧ i64Min ≤ n ∧ n ≤ i64Max ∧ p.nonce = some (.integer n))) := by
-  intro h
-  cases v with
-  | array a =>
-    simp only [PartyInfo.fromValue, tryAsArray, Gen.PartyInfo_arityBad] at h
-    by_cases hl : a.length = 3
-    · obtain ⟨x0, x1, x2, rfl⟩ := list_len3 a hl
-      simp [Gen.PartyInfo_removes, vremove] at h
-      cases ho : nullOrBytes x2 with
-      | ok other =>
-        simp only [ho] at h
-        cases hi : nullOrBytes x0 with
-        | ok ident =>
-          cases x1 with
-          | null => simp [hi] at h; subst h; exact ⟨x0, _, x2, rfl, hi, ho, Or.inl ⟨rfl, rfl⟩⟩
-          | bytes b => simp [hi] at h; subst h; exact ⟨x0, _, x2, rfl, hi, ho, Or.inr (Or.inl ⟨b, rfl, rfl⟩)⟩
-          | int n =>
-            by_cases hr : i64Min ≤ n ∧ n ≤ i64Max
-            · simp [hi, narrowI64, hr] at h; subst h; exact ⟨x0, _, x2, rfl, hi, ho, Or.inr (Or.inr ⟨n, rfl, hr.1, hr.2, rfl⟩)⟩
-            · simp [narrowI64, hr] at h
-          | _ => simp [typeError] at h
-        | err e => cases x1 <;> simp [hi, typeError, narrowI64] at h <;> (try (split at h <;> simp at h))
-        | panic q => cases x1 <;> simp [hi, typeError, narrowI64] at h <;> (try (split at h <;> simp at h))
-      | err e => simp [ho] at h
-      | panic q => simp [ho] at h
-    · have : (a.length != 3) = true := by simpa using hl
-      simp [this] at h
-  | _ => simp [PartyInfo.fromValue, tryAsArray, typeError] at h
+/-- claims set acceptance as an equivalence. -/
+theorem claims_accepted_iff (v : Value) :
+    (∃ c, ClaimsSet.fromValue v = .ok c) ↔
+      ∃ m ns, v = .map m ∧ mapRes (RegLabelPriv.fromValue Reg.cwtClaimName) (m.map (·.1)) = .ok ns ∧ ns.Nodup ∧
+        ∀ p ∈ ns.zip (m.map (·.2)), ClaimOk p.1 p.2 := by
+  constructor
+  · rintro ⟨c, hok⟩
+    obtain ⟨m, ns, rfl, hk, hnd, co⟩ := claims_accepted_is_wellformed v c hok
+    have hlen : ns.length = (m.map (·.2)).length := by simpa using mapResLen _ _ _ hk
+    have hfst : (ns.zip (m.map (·.2))).map (·.1) = ns := by rw [List.map_fst_zip]; omega
+    have hnd' : ((ns.zip (m.map (·.2))).map (·.1)).Nodup := by rw [hfst]; exact hnd
+    refine ⟨m, ns, rfl, hk, hnd, ?_⟩
+    intro p hp
+    obtain ⟨n, x⟩ := p
+    have hl := lookupN_of_mem n x _ hnd' hp
+    refine ⟨?_, ?_, ?_⟩
+    · rintro (e | e | e) <;> subst e
+      · have := co.issuer; rw [hl] at this; obtain ⟨t, h1, _⟩ := this; exact ⟨t, h1⟩
+      · have := co.subject; rw [hl] at this; obtain ⟨t, h1, _⟩ := this; exact ⟨t, h1⟩
+      · have := co.audience; rw [hl] at this; obtain ⟨t, h1, _⟩ := this; exact ⟨t, h1⟩
+    · rintro (e | e | e) <;> subst e
+      · have := co.expirationTime; rw [hl] at this; obtain ⟨t, h1, _⟩ := this; exact ⟨t, h1⟩
+      · have := co.notBefore; rw [hl] at this; obtain ⟨t, h1, _⟩ := this; exact ⟨t, h1⟩
+      · have := co.issuedAt; rw [hl] at this; obtain ⟨t, h1, _⟩ := this; exact ⟨t, h1⟩
+    · intro e; subst e; have := co.cwtId; rw [hl] at this; obtain ⟨b, h1, _⟩ := this; exact ⟨b, h1⟩
+  · rintro ⟨m, ns, rfl, hk, hnd, hall⟩
+    exact claims_wellformed_is_accepted m ns hk hnd hall
 
-/-- the KDF context needs at least its four leading elements, and never panics on the subtraction `len - 4`. -/
-theorem kdf_arity (a : List Value) (h : a.length < 4) : CoseKdfContext.fromValue (.array a) = .err .unexpectedItem := by
-  simp [CoseKdfContext.fromValue, tryAsArray, Gen.CoseKdfContext_arityBad, h]
+/-! ### KDF context and its parts: acceptance as equivalences -/
+
+/-- a PartyInfo nonce slot. -/
+def NonceOk (x : Value) : Prop := x = .null ∨ (∃ b, x = .bytes b) ∨ (∃ n, x = .int n ∧ i64Min ≤ n ∧ n ≤ i64Max)
+
+theorem party_info_iff (v : Value) :
+    (∃ p, PartyInfo.fromValue v = .ok p) ↔
+      ∃ x0 x1 x2, v = .array [x0, x1, x2] ∧ (∃ o, nullOrBytes x0 = .ok o) ∧ NonceOk x1 ∧ (∃ o, nullOrBytes x2 = .ok o) := by
+  constructor
+  · rintro ⟨p, hp⟩
+    obtain ⟨x0, x1, x2, rfl, h0, h2, h1⟩ := party_info v p hp
+    refine ⟨x0, x1, x2, rfl, ⟨_, h0⟩, ?_, ⟨_, h2⟩⟩
+    rcases h1 with ⟨e, _⟩ | ⟨b, e, _⟩ | ⟨n, e, a1, a2, _⟩
+    · exact Or.inl e
+    · exact Or.inr (Or.inl ⟨b, e⟩)
+    · exact Or.inr (Or.inr ⟨n, e, a1, a2⟩)
+  · rintro ⟨x0, x1, x2, rfl, ⟨o0, h0⟩, h1, ⟨o2, h2⟩⟩
+    simp only [PartyInfo.fromValue, tryAsArray, Gen.PartyInfo_arityBad, Gen.PartyInfo_removes]
+    rcases h1 with rfl | ⟨b, rfl⟩ | ⟨n, rfl, a1, a2⟩
+    · exact ⟨⟨o0, none, o2⟩, by simp [vremove, h0, h2]⟩
+    · exact ⟨⟨o0, some (.bytes b), o2⟩, by simp [vremove, h0, h2]⟩
+    · exact ⟨⟨o0, some (.integer n), o2⟩, by simp [vremove, h0, h2, narrowI64, a1, a2]⟩
+
+theorem supp_pub_info_iff (v : Value) :
+    (∃ s, SuppPubInfo.fromValue v = .ok s) ↔
+      ∃ n x1, 0 ≤ n ∧ n ≤ u64Max ∧ (∃ p, phFromBstr x1 = .ok p) ∧ (v = .array [.int n, x1] ∨ ∃ o, v = .array [.int n, x1, .bytes o]) := by
+  constructor
+  · rintro ⟨s, hs⟩
+    have hem := supp_emit v s hs
+    obtain ⟨len, p, other⟩ := s
+    -- the emitted value is `v`; read the shape off the emission
+    simp only [SuppPubInfo.toValue] at hem
+    cases hc : ProtectedHeader.cborBstr p with
+    | ok pv =>
+      simp only [hc] at hem
+      have hrange : 0 ≤ len ∧ len ≤ u64Max ∧ phFromBstr pv = .ok p := by
+        cases other with
+        | none =>
+          simp at hem; subst hem
+          simp [SuppPubInfo.fromValue, tryAsArray, Gen.SuppPubInfo_arityBad, Gen.SuppPubInfo_removes, vremove] at hs
+          cases hp : phFromBstr pv with
+          | ok p' =>
+            simp [hp, tryAsInteger, narrowU64] at hs
+            by_cases hr : 0 ≤ len ∧ len ≤ u64Max
+            · simp [hr] at hs; exact ⟨hr.1, hr.2, by rw [hs]⟩
+            · simp [hr] at hs
+          | err e => simp [hp] at hs
+          | panic q => simp [hp] at hs
+        | some o =>
+          simp at hem; subst hem
+          simp [SuppPubInfo.fromValue, tryAsArray, Gen.SuppPubInfo_arityBad, Gen.SuppPubInfo_removes, vremove, tryAsBytes] at hs
+          cases hp : phFromBstr pv with
+          | ok p' =>
+            simp [hp, tryAsInteger, narrowU64] at hs
+            by_cases hr : 0 ≤ len ∧ len ≤ u64Max
+            · simp [hr] at hs; exact ⟨hr.1, hr.2, by rw [hs]⟩
+            · simp [hr] at hs
+          | err e => simp [hp] at hs
+          | panic q => simp [hp] at hs
+      refine ⟨len, pv, hrange.1, hrange.2.1, ⟨p, hrange.2.2⟩, ?_⟩
+      cases other with
+      | none => simp at hem; exact Or.inl hem.symm
+      | some o => simp at hem; exact Or.inr ⟨o, hem.symm⟩
+    | err e => simp [hc] at hem
+    | panic q => simp [hc] at hem
+  · rintro ⟨n, x1, h0, h1, ⟨p, hp⟩, hv | ⟨o, hv⟩⟩ <;> subst hv
+    · exact ⟨⟨n, p, none⟩, by
+        simp [SuppPubInfo.fromValue, tryAsArray, Gen.SuppPubInfo_arityBad, Gen.SuppPubInfo_removes, vremove, hp, tryAsInteger, narrowU64, h0, h1]⟩
+    · exact ⟨⟨n, p, some o⟩, by
+        simp [SuppPubInfo.fromValue, tryAsArray, Gen.SuppPubInfo_arityBad, Gen.SuppPubInfo_removes, vremove, hp, tryAsInteger, narrowU64, h0, h1, tryAsBytes]⟩
+
+/-- COSE_KDF_Context = [AlgorithmID, PartyUInfo, PartyVInfo, SuppPubInfo, *bstr]: accepted exactly in this shape. -/
+theorem kdf_context_iff (v : Value) :
+    (∃ k, CoseKdfContext.fromValue v = .ok k) ↔
+      ∃ (x0 x1 x2 x3 : Value) (bs : List Bytes), v = .array ([x0, x1, x2, x3] ++ bs.map Value.bytes) ∧
+        (∃ a, RegLabelPriv.fromValue Reg.algorithm x0 = .ok a) ∧ (∃ p, PartyInfo.fromValue x1 = .ok p) ∧ (∃ p, PartyInfo.fromValue x2 = .ok p) ∧
+        (∃ s, SuppPubInfo.fromValue x3 = .ok s) := by
+  constructor
+  · rintro ⟨k, hk⟩
+    obtain ⟨x0, x1, x2, x3, bs, hv, h0, h1, h2, h3, _⟩ := kdf_shape v k hk
+    exact ⟨x0, x1, x2, x3, bs, hv, ⟨_, h0⟩, ⟨_, h1⟩, ⟨_, h2⟩, ⟨_, h3⟩⟩
+  · rintro ⟨x0, x1, x2, x3, bs, rfl, ⟨a, ha⟩, ⟨p1, h1⟩, ⟨p2, h2⟩, ⟨s, hs⟩⟩
+    refine ⟨⟨a, p1, p2, s, bs⟩, ?_⟩
+    have hlen : ¬ ([x0, x1, x2, x3] ++ bs.map Value.bytes).length < 4 := by simp
+    have hn : ([x0, x1, x2, x3] ++ bs.map Value.bytes).length - 4 = bs.length := by simp
+    simp only [CoseKdfContext.fromValue, tryAsArray, Gen.CoseKdfContext_arityBad, hlen, decide_false, Bool.false_eq_true, if_false, hn,
+      kdfTail_emit bs.length bs [x0, x1, x2, x3] [] rfl rfl]
+    simp [Gen.CoseKdfContext_removes, vremove, hs, h2, h1, ha]
+
+/-! ### encode side (with C11): well-formed values emit exactly their populated fields and decode to themselves -/
+
+theorem claims_encode_decode (c : ClaimsSet) (hw : c.WF) :
+    c.toValue = .ok (.map (namePairs (claimL c.issuer c.subject c.audience c.expirationTime c.notBefore c.issuedAt c.cwtId ++ c.rest))) ∧
+    ClaimsSet.fromValue (.map (namePairs (claimL c.issuer c.subject c.audience c.expirationTime c.notBefore c.issuedAt c.cwtId ++ c.rest))) = .ok c :=
+  claims_rt c hw
+
+/-- the typed claims are emitted once each, only when populated, under labels 1–7 in order. -/
+theorem claims_typed_entries (iss sub aud : Option Bytes) (exp nbf iat : Option Timestamp) (cti : Option Bytes) :
+    List.Sublist ((claimL iss sub aud exp nbf iat cti).map (·.1)) typedClaims := claimL_names iss sub aud exp nbf iat cti
+
+theorem kdf_encode_decode (k : CoseKdfContext) (hw : k.WF) :
+    ∃ x k', k.toValue = .ok x ∧ CoseKdfContext.fromValue x = .ok k' ∧ k'.algorithmId = k.algorithmId ∧ k'.partyUInfo = k.partyUInfo ∧
+      k'.partyVInfo = k.partyVInfo ∧ k'.suppPrivInfo = k.suppPrivInfo ∧ k'.suppPubInfo.keyDataLength = k.suppPubInfo.keyDataLength ∧
+      k'.suppPubInfo.other = k.suppPubInfo.other ∧
+      ProtectedHeader.erase k'.suppPubInfo.protected_ = ProtectedHeader.erase k.suppPubInfo.protected_ := kdf_rt k hw
+
+theorem decode_emits_input (v : Value) (k : CoseKdfContext) (h : CoseKdfContext.fromValue v = .ok k) : k.toValue = .ok v := kdf_emit v k h
 
 /-- non-vacuity: a claims set with every typed claim and a private one; a KDF context with and without private info. -/
 example : (fromSlice ClaimsSet.fromValue [0xa3, 0x01, 0x61, 0x69, 0x04, 0x1a, 0x65, 0x53, 0xf1, 0x00, 0x3a, 0x00, 0x01, 0x00, 0x00, 0xf6]).isOk = true := by decide +kernel
@@ -169,9 +215,18 @@ example : (fromSlice CoseKdfContext.fromValue [0x83, 0x26, 0x83, 0xf6, 0xf6, 0xf
 
 #print axioms fold_claimsOf
 #print axioms claims_accepted_is_wellformed
+#print axioms claims_wellformed_is_accepted
+#print axioms claims_accepted_iff
 #print axioms claims_dup_error_kind
 #print axioms timestamp
 #print axioms party_info
+#print axioms party_info_iff
+#print axioms supp_pub_info_iff
+#print axioms kdf_context_iff
 #print axioms kdf_arity
+#print axioms claims_encode_decode
+#print axioms claims_typed_entries
+#print axioms kdf_encode_decode
+#print axioms decode_emits_input
 
 end Coset.Props.C18
